@@ -149,6 +149,8 @@ HISTORIES = (
     ('a subscription made during an emit counts from the next emit',
      [('on', 'n', 'SUB:n:G', None), ('emit', 'n', 'a'), ('off', 'n', 'SUB:n:G'), ('emit', 'n', 'b')],
      [('SUB:n:G', 'a', {}), ('G', 'b', {})]),
+    ('emits nobody listens to leave nothing behind',
+     [('emit', 'n', 'a'), ('emit', 'm', 'b'), ('on', 'n', 'F', None), ('emit', 'm', 'c'), ('emit', 'n', 'd')], [('F', 'd', {})]),
     ('once-listener removing the name while it runs', [('once', 'n', 'OFFSELF:n', None), ('on', 'n', 'G', None), ('emit', 'n', 'a'), ('emit', 'n', 'b')],
      [('OFFSELF:n', 'a', {}), ('G', 'a', {})]),
 )
